@@ -100,7 +100,7 @@ func c08Run(c *Ctx, capSec int) {
 	// displacement scenario: after the first fetch of a "flip" key the upstream answers with an error
 	var flipMu sync.Mutex
 	flipSeen := map[string]int{}
-	b.Up["pipe"].Hook = func(q *fakeup.QueryLog, d *fakeup.Directives) {
+	b.Up["pipe"].SetHook(func(q *fakeup.QueryLog, d *fakeup.Directives) {
 		if !strings.Contains(q.Name, "flip") {
 			return
 		}
@@ -115,7 +115,7 @@ func c08Run(c *Ctx, capSec int) {
 				d.Kind, d.RCode = "rc", 2
 			}
 		}
-	}
+	})
 	thorough := c.Tier == "thorough"
 	var keys []c08Key
 	add := func(first, kind string, probes ...float64) {
